@@ -262,6 +262,12 @@ func (c *Ctx) callMods(info *types.Info, call *ast.CallExpr, ms *modSet, depth i
 	}
 	sig := fn.Type().(*types.Signature)
 	isIface := sig.Recv() != nil && types.IsInterface(sig.Recv().Type())
+	if isIface && depth < 6 {
+		if fi, _ := c.devirtTarget(info, call, fn); fi != nil {
+			c.collectMods(fi.Pkg.TypesInfo, fi.Decl.Body, ms, depth+1)
+			return
+		}
+	}
 	if fi := e.funcs[fn.FullName()]; !isIface && fi != nil && (e.cs.Inline[fn.FullName()] || inlinable(fi.Decl)) && depth < 6 {
 		c.collectMods(fi.Pkg.TypesInfo, fi.Decl.Body, ms, depth+1)
 		// callee locals are irrelevant to the caller but harmless
@@ -400,6 +406,23 @@ func (c *Ctx) pointClauses(s *State, point string, pos token.Pos) {
 	}
 }
 
+// noExit: when the loop contract says `noexit`, leaving the loop by break or return is an obligation failure
+// (the loop must keep serving: e.g. a listener must survive a bad message).
+func (c *Ctx) noExit(id string, ls *LoopSpec, brk func(*State), ret func(*State, []Val)) (func(*State), func(*State, []Val)) {
+	if ls == nil || !ls.NoExit {
+		return brk, ret
+	}
+	b2 := func(s *State) {
+		c.addObl(s, "noexit", "loop."+id+".noexit.break", "false", "loop "+id+" is left by break (it must only end when its range is exhausted)")
+		brk(s)
+	}
+	r2 := func(s *State, vs []Val) {
+		c.addObl(s, "noexit", "loop."+id+".noexit.return", "false", "loop "+id+" is left by return (it must only end when its range is exhausted)")
+		ret(s, vs)
+	}
+	return b2, r2
+}
+
 func (c *Ctx) execFor(st *State, x *ast.ForStmt, k konts) {
 	{
 		id := c.loopID[x]
@@ -450,7 +473,9 @@ func (c *Ctx) execFor(st *State, x *ast.ForStmt, k konts) {
 				done(s)
 			}
 		}
-		c.execBlock(sA, x.Body.List, konts{next: after, cont: after, brk: k.next, ret: k.ret})
+		c.pointClauses(sA, "loop "+id+" body", pos)
+		brk, ret := c.noExit(id, ls, k.next, k.ret)
+		c.execBlock(sA, x.Body.List, konts{next: after, cont: after, brk: brk, ret: ret, retDone: k.ret})
 	}
 	if x.Init != nil {
 		k2 := k
@@ -552,7 +577,9 @@ func (c *Ctx) execRange(st *State, x *ast.RangeStmt, k konts) {
 			c.checkInvs(s, id, ls, pos, map[string]Val{"$i": {T: nx, S: "Int", GT: intT}}, "step")
 			c.paths++
 		}
-		c.execBlock(sA, x.Body.List, konts{next: after, cont: after, brk: k.next, ret: k.ret})
+		c.pointClauses(sA, "loop "+id+" body", pos)
+		brk, ret := c.noExit(id, ls, k.next, k.ret)
+		c.execBlock(sA, x.Body.List, konts{next: after, cont: after, brk: brk, ret: ret, retDone: k.ret})
 	case *types.Map:
 		mk := c.mapHeap(xt)
 		setS := arraySort(mk.kS, "Bool")
@@ -609,7 +636,9 @@ func (c *Ctx) execRange(st *State, x *ast.RangeStmt, k konts) {
 			c.checkInvs(s, id, ls, pos, ex, "step")
 			c.paths++
 		}
-		c.execBlock(sA, x.Body.List, konts{next: after, cont: after, brk: k.next, ret: k.ret})
+		c.pointClauses(sA, "loop "+id+" body", pos)
+		brk, ret := c.noExit(id, ls, k.next, k.ret)
+		c.execBlock(sA, x.Body.List, konts{next: after, cont: after, brk: brk, ret: ret, retDone: k.ret})
 	case *types.Chan:
 		c.checkInvs(st, id, ls, pos, nil, "init")
 		c.havocMods(st, ms)
@@ -624,7 +653,9 @@ func (c *Ctx) execRange(st *State, x *ast.RangeStmt, k konts) {
 			c.checkInvs(s, id, ls, pos, nil, "step")
 			c.paths++
 		}
-		c.execBlock(sA, x.Body.List, konts{next: after, cont: after, brk: k.next, ret: k.ret})
+		c.pointClauses(sA, "loop "+id+" body", pos)
+		brk, ret := c.noExit(id, ls, k.next, k.ret)
+		c.execBlock(sA, x.Body.List, konts{next: after, cont: after, brk: brk, ret: ret, retDone: k.ret})
 	default:
 		c.abort("range over %s not supported at %s", xt, c.pos(x))
 	}
